@@ -534,6 +534,10 @@ func init() {
 				c06Concurrent(ctx)
 				continue
 			}
+			if k%2000 == 1000 {
+				c06ConfigPath(ctx, k)
+				continue
+			}
 			switch k % 3 {
 			case 0:
 				c06Linear(ctx)
